@@ -146,7 +146,7 @@ PROPS["C12"] = dict(
     proof_files=CODEC_FILES + ["proofs/CatalogProofs.v", "props/C12.v"],
     props_files=["props/C12.v"],
     harness="C12", corr_files=["model/CorrCodec.v"],
-    theorems=["C12_roundtrip", "C12_truncation", "C12_writer_fault", "C12_no_overwrite", "C12_kb_roundtrip"],
+    theorems=["C12_roundtrip", "C12_truncation", "C12_writer_fault", "C12_no_overwrite", "C12_kb_roundtrip", "C12_removed_preserved"],
     trusted=CODEC_TRUST,
     assumptions=[
         "a Go map is written in its iteration order: the model keeps every map as an association list in stream order, the theorems hold for every order",
@@ -156,7 +156,9 @@ PROPS["C12"] = dict(
         "BuildKnowledgeBase is modelled as Catalog.kb_of_catalog (graph read as trees the way the evaluator reads it) and compared with the implementation on every run; "
         "kb_of_catalog (catalog_of_kb rs) = Ok rs is proved for a catalog_of_kb without node sharing and without working-memory maps (the real MakeCatalog shares equal "
         "sub-expressions; its output is what the correspondence decodes and unfolds)",
-        "removed rules (Deleted flag not stored, D8) are outside the generated region and replayed as a known finding",
+        "removed rules: the Deleted flag is not a field of the stream; the model derives it from the rule name exactly as BuildKnowledgeBase does since engine commit 01c7ce8 "
+        "(tombstone name = Deleted_ + uuid, anchored to the source); C12_removed_preserved assumes that flag and name agree in the stored knowledge base, which building "
+        "(rule names have no '-') and RemoveRuleEntry maintain; generated knowledge bases have rules removed before the store and a regression scenario (formerly D8) runs first",
     ],
     explanation="Round trip decode(encode c) = Ok c for every well-formed catalog and every map order, error on every strict prefix, store error for every failing "
                 "Write call, and the overwrite=false / failed-load library invariants are proved over the executable stream model; the streams written by the real "
@@ -390,8 +392,7 @@ MANIFEST_TEXT = {
              "the streams written by the real StoreKnowledgeBaseToWriter inside Coq; the implementation is also checked directly (metadata, snapshots, working "
              "memory, instance behaviour after one and two store/load generations, every truncation offset, every failing Write index, overwrite flag).",
         note="Trust: Coq kernel; hand-written stream model (validated against real streams on every run, not verified against Go); translator; harness. "
-             "Instance behaviour is derived from equality of the complete catalog, not from a proof about BuildKnowledgeBase. Known finding: a rule removed "
-             "before the store is active again after loading (Deleted flag not stored). No axioms (closed under the global context).",
+             "Instance behaviour is derived from equality of the complete catalog, not from a proof about BuildKnowledgeBase. Removed rules stay removed across store/load (flag derived from the tombstone name, as the engine does). No axioms (closed under the global context).",
         technique="Rocq/Coq proof over an executable codec model + source-extracted constants/field orders + byte-level correspondence (vm_compute) + implementation oracles",
     ),
     # ---- C12 -- end ----
